@@ -65,13 +65,28 @@ def fmt_bound_ns(ns):
     return "%04d%02d%02dT%02d%02d%02d.%06d" % (y, m, d, h, mi, s, (ns % 10 ** 9) // 1000)
 
 
+def build_sets(work, tier):
+    sets = c13.build_sets(work, tier)
+    # sources that fail while being processed (their summaries carry an error): a .gz cut mid-stream (read with a small
+    # block size it prints what could be decoded first), a file that is no gzip at all, beside a healthy log
+    import hashlib
+    E = gen.EPOCH_2000
+    big = gen.text_log([(E * 1000 + i * 10, b"m%d " % i + hashlib.sha256(b"%d" % i).hexdigest().encode()) for i in range(400)])
+    z = gen.gz(big)
+    common.write_file(os.path.join(work, "s7", "trunc.log.gz"), z[:len(z) // 2])
+    common.write_file(os.path.join(work, "s7", "bogus.gz"), b"this is not gzip\n")
+    common.write_file(os.path.join(work, "s7", "ok.log"), gen.text_log([(E * 1000 + 5, b"ok1"), (E * 1000 + 2000, b"ok2", [b" more"])]))
+    sets.append(("s7", ["trunc.log.gz", "bogus.gz", "ok.log"], {}))
+    return sets
+
+
 def run(tier, seed, build=True):
     if build:
         common.build_real()
     res = common.Result(PROP, tier, "exploration", seed)
     work = common.scratch_dir(PROP)
     try:
-        sets = c13.build_sets(work, tier)
+        sets = build_sets(work, tier)
         opts = []
         for f, al, tz, df, ps, (sa, sb) in itertools.product([None, "-n", "-p"], [False, True], [(None, 0), ("-u", 0)], [None, "%s"], [":", " - "],
                                                                [("", b""), ("XX", b"XX"), ("\\n", b"\n")]):
@@ -96,19 +111,19 @@ def run(tier, seed, build=True):
                 wins.append((allns[0], allns[0]))
             wins.append((allns[-1] + 5 * 10 ** 9, None))
             use = opts if sname != "s3" else opts[::5]
-            items = [(o, c, w) for o in use for c in ("never", "always") for w in wins]
+            items = [(o, c, w, bz) for o in use for c in ("never", "always") for w in wins for bz in ([None] if sname != "s7" else [None, 1024])]
 
             def one(it):
-                o, c, (a, b) = it
+                o, c, (a, b), bz = it
                 wargs = (["-a", fmt_bound_ns(a)] if a is not None else []) + (["-b", fmt_bound_ns(b)] if b is not None else [])
                 args = c13.argv_of(o, c, paths)
-                args = args[:4] + wargs + args[4:]
+                args = args[:4] + wargs + (["--blocksz", str(bz)] if bz else []) + args[4:]
                 r_s = common.run_s4(["-s"] + args, cwd=wd)
                 r_n = common.run_s4(args, cwd=wd)
                 return it, args, r_s, r_n
-            for (o, c, (a, b)), args, rs, rn in common.pmap(one, items):
+            for (o, c, (a, b), bz), args, rs, rn in common.pmap(one, items):
                 res.count()
-                res.distinct((sname, str(o), c, a, b))
+                res.distinct((sname, str(o), c, a, b, bz))
                 rep = {"engine": "E-CLI", "args": ["-s"] + args, "tree": sname}
                 base = {"color": c, "sources": sname, "window": "none" if a is None and b is None else "bounded"}
 
@@ -202,7 +217,7 @@ def replay(path, build=True):
     r = json.load(open(path))["replay"]
     work = common.scratch_dir(PROP + "r")
     try:
-        c13.build_sets(work, "thorough")
+        build_sets(work, "thorough")
         x = common.run_s4(r["args"], cwd=os.path.join(work, r["tree"]))
         prog, files = parse_summary(x.err)
         common.log("stdout bytes=%d newlines=%d; summary: %s; per-file: %s" % (len(x.out), x.out.count(b"\n"), {k: v for k, v in prog.items() if k.startswith("Printed") or k.startswith("Datetime")}, files))
